@@ -120,6 +120,8 @@ class Repo:
         return None
 
     def classdef(self, cqual):
+        if "." not in cqual:
+            return None
         mq, cn = cqual.rsplit(".", 1)
         m = self.modules.get(mq)
         if m and cn in m.classes:
